@@ -122,6 +122,11 @@ import GoSquare.Properties.C20
 #print axioms GoSquare.C18.validateForBlob_spec
 #print axioms GoSquare.C18.new_spec
 #print axioms GoSquare.C18.fromBytes_spec
+#print axioms GoSquare.C18.addInt_spec
+#print axioms GoSquare.C18.addInt_undo
+#print axioms GoSquare.addInt_exact
+#print axioms GoSquare.addLoop_inv
+#print axioms GoSquare.beVal_inj
 #print axioms GoSquare.C19.blobProto_roundtrip
 #print axioms GoSquare.C19.indexWrapper_roundtrip
 #print axioms GoSquare.C19.blobTxProto_roundtrip
